@@ -7,6 +7,7 @@ use std::panic::{catch_unwind, AssertUnwindSafe};
 mod coord;
 mod hdr;
 mod pexpr;
+mod pgr;
 mod sql;
 mod tree;
 mod tup;
@@ -62,6 +63,7 @@ fn main() {
                     "coord" => coord::run(&toks),
                     "hdr" => hdr::run(&toks),
                     "tree" => tree::run(&toks),
+                    "pgr" => pgr::run(&toks),
                     _ => panic!("unknown mode"),
                 }));
                 let s = match r {
